@@ -822,9 +822,14 @@ fn lyon_eps_for(m: f64, bits: u32) -> f64 {
 ///  * `cardano-double-root-eps`: one real root (discriminant clearly positive) but the
 ///    "repeated root" test `|s - t| < epsilon` passes because `epsilon` is taken from the
 ///    magnitude of the raw coefficients while `s`, `t` belong to the normalised polynomial;
+///  * `quadratic-negative-delta-eps`: quadratic branch, the discriminant is clearly negative
+///    (relative to its terms) but `|delta| < epsilon` holds because `epsilon` is absolute;
 ///  * `cardano-cancellation`: one real root and `|delta0|³ ≤ delta1²/100`, so that
 ///    `delta1 - sqrt(delta0³ + delta1²)` (or `+`) cancels and its cube root carries an error of
 ///    the order of the cube root of the machine epsilon;
+///  * `cardano-ill-conditioned`: `R > 100` (leading coefficient small against the others but
+///    not below `epsilon`): dividing by it makes the trigonometric branch lose about
+///    `sqrt(machine eps)·R`;
 ///  * `eps-table-gap`: the magnitude falls in 4096..=5095 where the f32 table of
 ///    `epsilon_for` has no arm and yields 1.0.
 fn cubic_class(co: [f64; 4], bits: u32) -> (&'static str, f64) {
@@ -840,7 +845,13 @@ fn cubic_class(co: [f64; 4], bits: u32) -> (&'static str, f64) {
             }
             return (base, (d / c).abs());
         }
-        return (base, (c / b).abs().max((d / b).abs().sqrt()));
+        let delta = c * c - 4.0 * b * d;
+        let r = (c / b).abs().max((d / b).abs().sqrt());
+        if delta < 0.0 && delta.abs() < eps && delta.abs() > 1e-3 * (c * c).max((4.0 * b * d).abs()) {
+            // clearly negative discriminant accepted as "zero" by the absolute epsilon
+            return ("quadratic-negative-delta-eps", r);
+        }
+        return (base, r);
     }
     let (bn, cn, dn) = (b / a, c / a, d / a);
     let r = bn.abs().max(cn.abs().sqrt()).max(dn.abs().cbrt());
@@ -856,6 +867,9 @@ fn cubic_class(co: [f64; 4], bits: u32) -> (&'static str, f64) {
         if d1 != 0.0 && d1 * d1 >= 100.0 * d0.abs().powi(3) {
             return ("cardano-cancellation", r);
         }
+    }
+    if r > 100.0 {
+        return ("cardano-ill-conditioned", r);
     }
     (base, r)
 }
@@ -1022,12 +1036,6 @@ fn polyroots_case<S: Fl>(ctx: &mut Ctx) {
                 let mm = a.abs().max(b.abs()).max(c.abs()).max(d.abs());
                 let ax = x.abs();
                 let scale = mm * (1.0 + ax + ax * ax + ax * ax * ax);
-                if rr > 100.0 {
-                    // |b/a| etc. beyond 100: normalising by `a` is ill-conditioned (errors of the
-                    // order sqrt(eps)·R in the trigonometric branch); no demand
-                    orc.skip("ill-conditioned-normalisation");
-                    continue;
-                }
                 let tol = 512.0 * S::EPS * (1.0 + rr) * (1.0 + rr) * scale + lyon_eps_for(mm, S::BITS) * ax * ax * ax.max(1.0);
                 if std::env::var("C12_STATS").is_ok() {
                     eprintln!("STAT polyroots {} {:e}", class, res / tol);
@@ -1115,10 +1123,13 @@ fn tri_case<S: Fl>(ctx: &mut Ctx) {
                 let (v0, v1) = mm(ys, &|p| p.1);
                 x1 < u0 || u1 < x0 || y1 < v0 || v1 < y0
             };
-            if boxes_apart(&[a, b, c], &[p64(o.a), p64(o.b), p64(o.c)]) {
+            // (slivers are excluded: the barycentric test is ill-conditioned there)
+            let fat = |a: V2, b: V2, c: V2| cross(sub(b, a), sub(c, a)).abs() > 1e-3 * norm(sub(b, a)) * norm(sub(c, a));
+            let both_fat = fat(a, b, c) && fat(p64(o.a), p64(o.b), p64(o.c));
+            if both_fat && boxes_apart(&[a, b, c], &[p64(o.a), p64(o.b), p64(o.c)]) {
                 orc.check(!ti, "triangle.intersects/disjoint-boxes", "generic", || "bounding boxes are disjoint but intersects() is true".to_string());
             }
-            if boxes_apart(&[a, b, c], &[p64(s.from), p64(s.to)]) {
+            if fat(a, b, c) && boxes_apart(&[a, b, c], &[p64(s.from), p64(s.to)]) {
                 orc.check(!ts, "triangle.intersects_line_segment/disjoint-boxes", "generic", || "bounding boxes are disjoint but intersects_line_segment() is true".to_string());
             }
             CaseOut { imp: out, orcl: orc.verdict }
@@ -1214,16 +1225,22 @@ fn cubiccubic_case<S: Fl>(ctx: &mut Ctx) {
                 if t > 0.1 && t < 0.9 && u > 0.1 && u < 0.9 && sep > 0.15 && transversal && refx.len() <= 4 {
                     demanded += 1;
                     let hit = r.iter().any(|(t2, u2)| (t2.f() - t).abs() <= 2e-2 && (u2.f() - u).abs() <= 2e-2);
-                    // witness class: single precision misses the crossing although the same query
-                    // in double precision (same control points) – or in the other argument order –
-                    // reports it: a precision-related miss of the f32 clipper
+                    // witness class: the crossing is missed by this query but reported by a variant
+                    // of it – the two curves in the other order, or the same control points in the
+                    // other precision: an unstable miss of the clipper (a miss by all variants
+                    // stays `generic`)
                     let near = |t2: f64, u2: f64| (t2 - t).abs() <= 2e-2 && (u2 - u).abs() <= 2e-2;
-                    let class = if !hit && S::BITS == 32 {
-                        let c64 = |c: &[V2; 4]| CubicBezierSegment { from: point(c[0].0, c[0].1), ctrl1: point(c[1].0, c[1].1), ctrl2: point(c[2].0, c[2].1), to: point(c[3].0, c[3].1) };
-                        let in64 = c64(&ca).cubic_intersections_t(&c64(&cb)).iter().any(|(t2, u2)| near(*t2, *u2));
+                    let class = if !hit {
+                        let other = if S::BITS == 32 {
+                            let c = |c: &[V2; 4]| CubicBezierSegment { from: point(c[0].0, c[0].1), ctrl1: point(c[1].0, c[1].1), ctrl2: point(c[2].0, c[2].1), to: point(c[3].0, c[3].1) };
+                            c(&ca).cubic_intersections_t(&c(&cb)).iter().any(|(t2, u2)| near(*t2, *u2))
+                        } else {
+                            let c = |c: &[V2; 4]| CubicBezierSegment { from: point(c[0].0 as f32, c[0].1 as f32), ctrl1: point(c[1].0 as f32, c[1].1 as f32), ctrl2: point(c[2].0 as f32, c[2].1 as f32), to: point(c[3].0 as f32, c[3].1 as f32) };
+                            c(&ca).cubic_intersections_t(&c(&cb)).iter().any(|(t2, u2)| near(*t2 as f64, *u2 as f64))
+                        };
                         let swapped = b.cubic_intersections_t(&a).iter().any(|(u2, t2)| near(t2.f(), u2.f()));
-                        if in64 || swapped {
-                            "f32-precision-miss"
+                        if other || swapped {
+                            "clipper-unstable-miss"
                         } else {
                             "generic"
                         }
@@ -1259,7 +1276,7 @@ fn main() {
             segseg_lattice_case::<f64>(&mut ctx, idx);
         }
     }
-    let n = ctx.n(1200, 30000);
+    let n = ctx.n(1200, 60000);
     for _ in 0..n {
         for _ in 0..4 {
             segseg_random_case::<f32>(&mut ctx);
